@@ -444,6 +444,10 @@ impl DnsCache {
             });
         }
 
+        if !expired_instances.is_empty() {
+            self.prune_subtypes();
+        }
+
         // SRV and TXT records that no PTR record leads to (any more) are not
         // visited above: drop the expired ones, there is nobody to notify.
         self.srv.retain(|_, records| {
@@ -456,6 +460,19 @@ impl DnsCache {
         });
 
         expired_instances
+    }
+
+    /// Forgets the subtype of every instance that no PTR record points to any more.
+    fn prune_subtypes(&mut self) {
+        let ptr = &self.ptr;
+        self.subtype.retain(|instance, _| {
+            ptr.values().flatten().any(|r| {
+                r.record
+                    .any()
+                    .downcast_ref::<DnsPointer>()
+                    .is_some_and(|dns_ptr| dns_ptr.alias() == instance)
+            })
+        });
     }
 
     /// Removes all records of a service type: PTR, SRV, TXT records and any ADDR records
@@ -512,6 +529,8 @@ impl DnsCache {
                 self.addr.remove(&host);
             }
         }
+
+        self.prune_subtypes();
     }
 
     /// Checks refresh due for PTR records of `ty_domain`.
